@@ -3,4 +3,5 @@ import sys
 from .._cli import main
 
 
-sys.exit(main(['lint'] + sys.argv[1:]))
+# the exit status is one byte: keep a large number of violations from wrapping around to 0
+sys.exit(min(main(['lint'] + sys.argv[1:]), 255))
